@@ -175,7 +175,13 @@ Theorem C14_distance_as_found_refuted :
   exists P norms x ds, wf_aff P /\ length x = a_in P /\ in_poly P x /\
     p_distance_old P norms x = Some ds /\ ~ Forall ed_nonneg ds /\ In DNaN ds.
 Proof. exact distance_old_refuted. Qed.
-(* axis_bounds / hyperrectangle treated +inf as lower bound (and -inf as upper bound) as "no bound":
+(* distance() in a 0-dimensional space (repaired in /repo f59adb3): the norm of a row without columns was
+   sqrt(-0.0) = -0.0 (sum of an empty f64 iterator), so the satisfied row 0 <= 1 got -inf instead of INFINITY *)
+Theorem C14_distance_dim0_as_found_refuted :
+  exists P norms x ds, wf_aff P /\ length x = a_in P /\ in_poly P x /\
+    p_distance_v1 P norms x = Some ds /\ ~ Forall ed_nonneg ds /\ In DNInf ds.
+Proof. exact distance_v1_refuted. Qed.
+(* axis_bounds / hyperrectangle (repaired in /repo 87f0b13) treated +inf as lower bound (and -inf as upper bound) as "no bound":
    axis_bounds(1, 0, +inf, +inf) held every point *)
 Theorem C14_axis_bounds_as_found_refuted :
   exists n axis l u P x, (axis < n)%nat /\ ebleb l u = true /\ p_axis_bounds_old n axis l u = Some P /\ length x = n /\
@@ -243,5 +249,6 @@ Print Assumptions C14_contains.
 Print Assumptions C14_poly_equiv_sound.
 Print Assumptions C14_poly_equiv_cex.
 Print Assumptions C14_distance_as_found_refuted.
+Print Assumptions C14_distance_dim0_as_found_refuted.
 Print Assumptions C14_axis_bounds_as_found_refuted.
 Print Assumptions C14_nonvacuous.
